@@ -402,29 +402,9 @@ func runC17(cfg Cfg) error {
 	}
 
 	// (5) bint
-	for i := 0; i < nBint; i++ {
-		var v uint64
-		switch r.Intn(4) {
-		case 0:
-			v = r.U64()
-		case 1:
-			v = r.U64() >> uint(r.Intn(64))
-		case 2:
-			v = uint64(r.Intn(3))
-		default:
-			v = uint64(1)<<uint(r.Intn(64)) - uint64(r.Intn(2))
-		}
-		pad := r.Intn(41) // 0 = nil buffer
-		if cfg.Thorough() {
-			pad = i % 41
-		}
-		var buf []byte
+	bintEnc := func(v uint64, pad int, buf []byte) {
 		padC := "None"
 		if pad > 0 {
-			buf = make([]byte, pad)
-			if r.Chance(1, 6) { // non-zeroed buffer: untouched bytes must stay
-				buf = r.Bytes(pad)
-			}
 			padC = "(Some " + lib.CBytes(buf) + ")"
 		}
 		orig := append([]byte(nil), buf...)
@@ -442,15 +422,67 @@ func runC17(cfg Cfg) error {
 			if zeroed && (new(big.Int).SetBytes(enc).Uint64() != v || bint.Decode(enc) != v || (pad > 0 && len(enc) != pad)) {
 				ok, msg = false, "round trip failed"
 			}
+			if pad == 0 && len(enc) != need {
+				ok, msg = false, fmt.Sprintf("nil buffer: encoding has %d bytes, the exact (minimal) encoding has %d", len(enc), need)
+			}
 			if pad > 0 && pad < need {
 				ok, msg = false, "too-small buffer accepted"
 			}
 		} else if pad == 0 || pad >= need {
-			ok, msg = false, "Encode panicked on a large enough buffer"
+			ok, msg = false, fmt.Sprintf("Encode panicked on a large enough buffer (pad %d, value needs %d bytes)", pad, need)
 		}
 		out.Add(lib.Case{Coq: fmt.Sprintf("CBintEnc %s %s %s", padC, lib.CN(v), resC),
 			Desc: map[string]any{"op": "bint.Encode", "pad": pad, "n": v}, Kind: "bint-encode", Nontrivial: pad >= 1,
 			OracleOK: ok, OracleMsg: msg, Size: pad})
+	}
+	// boundary corpus: for every byte count k the smallest and the largest value with exactly
+	// k significant bytes (and neighbours), into nil, k-1, k, k+1 and 32 bytes
+	for k := 1; k <= 8; k++ {
+		lo := uint64(1) << uint(8*(k-1))
+		hi := lo<<7 | (lo<<7 - 1) // 2^(8k-1) + ... : top byte 0x7f.., exactly k bytes
+		if k == 1 {
+			lo = 1
+		}
+		mx := ^uint64(0) >> uint(64-8*k)
+		for _, v := range []uint64{lo, lo + 1, hi, mx} {
+			for j, pad := range []int{0, k - 1, k, k + 1, 32} {
+				if j == 1 && pad == 0 {
+					continue // k-1 = 0 would be the nil buffer again
+				}
+				var buf []byte
+				if pad > 0 {
+					buf = make([]byte, pad)
+				}
+				bintEnc(v, pad, buf)
+			}
+		}
+	}
+	bintEnc(0, 0, nil)
+	bintEnc(0, 1, make([]byte, 1))
+	for i := 0; i < nBint; i++ {
+		var v uint64
+		switch r.Intn(4) {
+		case 0:
+			v = r.U64()
+		case 1:
+			v = r.U64() >> uint(r.Intn(64))
+		case 2:
+			v = uint64(r.Intn(3))
+		default:
+			v = uint64(1)<<uint(r.Intn(64)) - uint64(r.Intn(2))
+		}
+		pad := r.Intn(41) // 0 = nil buffer
+		if cfg.Thorough() {
+			pad = i % 41
+		}
+		var buf []byte
+		if pad > 0 {
+			buf = make([]byte, pad)
+			if r.Chance(1, 6) { // non-zeroed buffer: untouched bytes must stay
+				buf = r.Bytes(pad)
+			}
+		}
+		bintEnc(v, pad, buf)
 		b := r.Bytes(r.Intn(41))
 		if r.Chance(1, 2) && len(b) > 8 {
 			for k := 0; k < len(b)-8; k++ {
@@ -458,10 +490,10 @@ func runC17(cfg Cfg) error {
 			}
 		}
 		var dv uint64
-		p, _ = lib.Catch(func() { dv = bint.Decode(b) })
+		p, _ := lib.Catch(func() { dv = bint.Decode(b) })
 		want := new(big.Int).SetBytes(b)
 		want.And(want, new(big.Int).SetUint64(^uint64(0)))
-		ok = !p && dv == want.Uint64()
+		ok := !p && dv == want.Uint64()
 		out.Add(lib.Case{Coq: fmt.Sprintf("CBintDec %s %s", lib.CBytes(b), lib.CN(dv)),
 			Desc: map[string]any{"op": "bint.Decode", "len": len(b)}, Kind: "bint-decode", Nontrivial: len(b) >= 1,
 			OracleOK: ok, OracleMsg: "Decode differs from math/big low 64 bits", Size: len(b)})
